@@ -178,9 +178,11 @@ struct Built
     std::vector<std::string> canon;
     std::vector<CNode> tree;
     std::vector<Builder> keep;
+    AliasMap *alias = nullptr; // shared-instance construction: content-equal shareable sub-objects are ONE instance across the pool
     void add(const Item &it)
     {
         keep.emplace_back();
+        keep.back().alias = alias;
         EntityPtr e = keep.back().build(it.spec);
         obj.push_back(e);
         if (e) {
@@ -201,6 +203,8 @@ static Built &built(const std::string &kind, int copy)
     auto it = cache.find(key);
     if (it != cache.end()) return it->second;
     Built &b = cache[key];
+    static std::map<std::string, AliasMap> registries;
+    if (copy == 2) b.alias = &registries[kind];
     auto pool = makePool(kind);
     b.keep.reserve(pool.size() + 8);
     for (auto &x : pool) b.add(x);
@@ -374,6 +378,35 @@ static Family pairsFamily(const std::string &kind)
     return f;
 }
 
+// the aliasing dimension: the same pool built ONCE with an alias registry, so that any two members share every shareable
+// sub-object whose content is identical (the base and a mutant that differs only NEXT TO an import source / a variable's units /
+// a reset's variable hold the very same instance of it, as two children of one <import> element or API users do)
+static Family pairsSharedFamily(const std::string &kind)
+{
+    Family f;
+    f.name = "pairs-shared:" + kind;
+    f.count = [kind] { uint64_t n = poolSize(kind); return n * n; };
+    f.run = [kind](uint64_t idx, Ctx &c) {
+        uint64_t before = g_aliasReuses;
+        Built &C = built(kind, 2);
+        if (g_aliasReuses != before && idx == 0) c.count("shared_instance_reuses:" + kind, g_aliasReuses - before);
+        size_t n = C.obj.size(), i = idx / n, j = idx % n;
+        if (idx == 0 || c.evaluations == 1) {
+            Built &A = built(kind, 0);
+            for (size_t k = 0; k < n; ++k)
+                if (A.canon[k] != C.canon[k]) c.violation("harness:shared-instance-build-changes-content", {{"k", k}, {"cls", A.items[k].cls}});
+        }
+        judgePair(c, kind, "pairs-shared", C, i, C, j, true);
+    };
+    f.show = [kind](uint64_t idx) {
+        auto pool = makePool(kind);
+        size_t n = pool.size(), i = idx / n, j = idx % n;
+        return json{{"kind", kind}, {"construction", "content-equal import sources / variable units / reset variables are one shared instance"}, {"i", i}, {"j", j},
+                    {"left_class", pool[i].cls}, {"right_class", pool[j].cls}, {"left_spec", pool[i].spec}, {"right_spec", pool[j].spec}};
+    };
+    return f;
+}
+
 // ------------------------------------------------------------------------------------------------ transitivity on all triples
 struct Matrix
 {
@@ -503,18 +536,22 @@ static Double &doubles(const std::string &kind)
     }
     return d;
 }
-static Family pairs2Family(const std::string &kind)
+static Family pairs2Family(const std::string &kind, bool sharedInstances = false)
 {
     Family f;
-    f.name = "pairs2:" + kind;
+    f.name = (sharedInstances ? "pairs2-shared:" : "pairs2:") + kind;
     f.count = [kind] { auto &d = doubles(kind); return uint64_t(d.firsts.size()) * d.W * d.p1.size() * 2; };
-    f.run = [kind](uint64_t idx, Ctx &c) {
+    f.run = [kind, sharedInstances](uint64_t idx, Ctx &c) {
+        static std::map<std::string, AliasMap> registries;
+        AliasMap *reg = sharedInstances ? &registries[kind] : nullptr;
+        const std::string slot = kind + (sharedInstances ? "#shared" : "");
         static std::map<std::string, Built> p1s;
         static std::map<std::string, std::pair<uint64_t, std::vector<SpecMutation>>> curFirst;
         static std::map<std::string, std::pair<uint64_t, std::shared_ptr<Built>>> curSecond;
         auto &d = doubles(kind);
-        Built &P1 = p1s[kind];
+        Built &P1 = p1s[slot];
         if (P1.obj.empty()) {
+            P1.alias = reg;
             P1.keep.reserve(d.p1.size() + 1);
             for (auto &x : d.p1) P1.add(x);
         }
@@ -522,18 +559,19 @@ static Family pairs2Family(const std::string &kind)
         bool dir = r.take(2);
         size_t i = r.take(d.p1.size());
         uint64_t m2 = r.take(d.W), m1 = r.v;
-        auto &cf = curFirst[kind];
+        auto &cf = curFirst[slot];
         if (cf.second.empty() || cf.first != m1) {
             cf.first = m1;
             cf.second.clear();
             enumerateMutations(d.firsts[m1].spec, json::json_pointer(), "", cf.second, false);
         }
         if (m2 >= cf.second.size()) { c.outcome("hole:no-such-second-mutation"); return; }
-        auto &cs = curSecond[kind];
+        auto &cs = curSecond[slot];
         uint64_t key = m1 * d.W + m2;
         if (!cs.second || cs.first != key) {
             cs.first = key;
             cs.second = std::make_shared<Built>();
+            cs.second->alias = reg;
             cs.second->keep.reserve(2);
             cs.second->add({d.firsts[m1].cls + "+" + cf.second[m2].what, cf.second[m2].spec});
         }
@@ -563,5 +601,7 @@ int main(int argc, char **argv)
     for (auto &k : KINDS) fs.push_back(triplesFamily(k));
     fs.push_back(crossFamily());
     for (auto &k : KINDS) fs.push_back(pairs2Family(k));
+    for (auto &k : KINDS) fs.push_back(pairsSharedFamily(k));
+    for (auto &k : KINDS) fs.push_back(pairs2Family(k, true));
     return harnessMain(argc, argv, fs);
 }
